@@ -640,6 +640,9 @@ impl Stdfs {
                 continue;
             }
 
+            // `follow`, i.e. pass through to the target for links
+            let src = if cp.follow && src.is_symlink() { StdfsEntry::from(src.path())?.upcast() } else { src };
+
             // Recreate links if were not following them
             if !cp.follow && src.is_symlink() {
                 // Copying into a directory might require creating it first
